@@ -5,6 +5,9 @@ use std::panic::{AssertUnwindSafe, catch_unwind};
 
 mod util;
 mod alloc;
+mod codec;
+mod ord;
+mod termio;
 mod frag;
 mod framing;
 mod pid;
@@ -18,6 +21,8 @@ fn main() {
     std::panic::set_hook(Box::new(|_| {}));
     let f: fn(&str) -> String = match domain.as_str() {
         "frag" => frag::run_case,
+        "codec" => codec::run_case,
+        "ord" => ord::run_case,
         "framing" => framing::run_case,
         "pid" => pid::run_case,
         _ => {
